@@ -5,6 +5,7 @@ from .. import astutil as A
 from .. import paths as P
 from ..loader import methods
 from ..selftest.runner import M, TW, V
+from . import common as K
 
 PROPERTY = "C06"
 EXPLANATION = (
@@ -32,11 +33,26 @@ HIST = "lena.structures.histogram"
 HF = "lena.structures.hist_functions"
 
 
+def as_add(st):
+    """(target, value) when *st* adds *value* to *target* in place, however it is spelled:
+    `T += E`, `T = T + E` or `T = E + T` (numeric accumulation commutes); else None."""
+    aa = A.as_augassign(st)
+    if aa is not None:
+        return (aa[0], aa[2]) if isinstance(aa[1], ast.Add) else None
+    if isinstance(st, ast.Assign) and len(st.targets) == 1 and isinstance(st.value, ast.BinOp) and isinstance(st.value.op, ast.Add) \
+            and isinstance(st.targets[0], (ast.Name, ast.Attribute, ast.Subscript)) and A.src(st.targets[0]) == A.src(st.value.right):
+        return st.targets[0], st.value.left
+    return None
+
+
 def accounting_effects(stmt):
+    """[(statement, target, added value)] for every in-place addition inside *stmt*."""
     out = []
     for n in A.walk_local(stmt):
-        if isinstance(n, ast.AugAssign) and isinstance(n.op, ast.Add):
-            out.append(n)
+        if isinstance(n, (ast.AugAssign, ast.Assign)):
+            tv = as_add(n)
+            if tv is not None:
+                out.append((n, tv[0], tv[1]))
     return out
 
 
@@ -79,11 +95,10 @@ def check_once(ctx):
                   "sum(bins) + n_out_of_range no longer equals the total filled weight" % (
                       len(effs), p.describe(), "lost" if not effs else "added more than once"),
                   detail="exactly one accounting effect on path [%s]" % p.describe(3), construct="once:%d:%s" % (len(effs), p.describe(3)), path=p)
-        for a in effs:
-            okv = isinstance(a.value, ast.Name) and a.value.id == weight
-            ctx.check("C06-a", okv, a, "histogram.fill adds `%s` instead of the weight it was given" % A.src(a.value),
-                      detail="the added value is the weight parameter", construct="weight:%s" % A.src(a))
-            t = a.target
+        for a, t, added in effs:
+            okv = isinstance(added, ast.Name) and added.id == weight
+            ctx.check("C06-a", okv, a, "histogram.fill adds `%s` instead of the weight it was given" % A.src(added),
+                      detail="the added value is the weight parameter", construct="weight:%s" % A.norm_src(a))
             if A.is_self_attr(t, "n_out_of_range"):
                 continue
             root = A.root_name(t)
@@ -104,12 +119,19 @@ def check_once(ctx):
             ctx.violation("C06-a", n, "histogram.fill stores self.%s: a fill must change exactly one cell or n_out_of_range and nothing "
                           "else (state remembered between fills goes stale when the coordinate object or the bins change)" % n.attr,
                           construct="fill-state:%s" % n.attr)
-    # an early fast path that bypasses the lookup: any return before the index computation
+    # an early fast path that bypasses the lookup: a path that returns (or falls off the end) without the index computation
     if ok:
-        for r in A.walk_local(fn):
-            if isinstance(r, ast.Return) and r.lineno < idx[0].lineno:
-                ctx.violation("C06-a", r, "histogram.fill returns before the bin lookup: some fills bypass get_bin_on_value",
-                              construct="early-return")
+        flagged = set()
+        for p in P.paths_of(fn):
+            if p.end == "raise" or p.has(idx[0]):
+                continue
+            rets = [st for st in p.stmts() if isinstance(st, ast.Return)]
+            r = rets[-1] if rets else fn
+            if id(r) in flagged:
+                continue
+            flagged.add(id(r))
+            ctx.violation("C06-a", r, "histogram.fill returns before the bin lookup: some fills bypass get_bin_on_value",
+                          construct="early-return")
     el = ctx.tree.func(HIST, "Histogram.fill")
     for p in P.paths_of(el):
         if p.end == "raise":
@@ -120,11 +142,37 @@ def check_once(ctx):
 
 
 def index_subscripts(fn, cells):
+    """Subscripts cell[ind] of the bins by a computed index, one per statement and spelling
+    (`c[i] = c[i] + w` names the same access twice)."""
     out = []
+    seen = set()
     for n in A.walk_local(fn):
         if isinstance(n, ast.Subscript) and isinstance(n.value, ast.Name) and n.value.id in cells and isinstance(n.slice, ast.Name):
-            out.append(n)
+            k = (id(A.enclosing(n, (ast.stmt,))), A.src(n))
+            if k not in seen:
+                seen.add(k)
+                out.append(n)
     return out
+
+
+def excludes_negative(t, pol, ind):
+    """Does the branch literal (*t* with outcome *pol*) establish  ind >= 0  for an integer *ind*?  Orientation and
+    negation do not matter: `not ind < 0`, `not 0 > ind`, `ind >= 0`, `0 <= ind`, `ind > -1` all do."""
+    lc = K.linear_cmp(t)
+    if lc is None:
+        return False
+    if not pol:
+        lc = K.negate_linear(lc)
+    coef, const, op = lc
+    if set(coef) != {ind}:
+        return False
+    c = coef[ind]
+    if op == "==":          # c*ind + const == 0
+        return (-const * c) >= 0
+    if op == "!=" or c > 0:  # an upper bound on ind, or no bound at all
+        return False
+    a = -c                  # -a*ind + const (<|<=) 0,  a > 0:  ind (>|>=) const/a
+    return const >= -a if op == "<" else const > -a
 
 
 def check_negative_guard(ctx, modname, qual, rule):
@@ -153,15 +201,14 @@ def check_negative_guard(ctx, modname, qual, rule):
             if i < 0:
                 continue
             npaths += 1
-            lits = [(A.src(t), pol) for t, pol in P.Path(p.ev[:i]).literals()]
-            # the guard must be the most recent test on this index variable
-            ok = ("%s < 0" % ind, False) in lits or ("%s >= 0" % ind, True) in lits
+            # the test that excludes a negative index, with no rebinding of ind between it and the use
+            guards = [k for k, e in enumerate(p.ev[:i]) if e[0] == "cond" and any(
+                excludes_negative(t, pol, ind) for t, pol in A.literals(e[1], e[2]))]
+            ok = bool(guards)
             if ok:
-                # no rebinding of ind between the guard and the use
-                last_guard = max(k for k, e in enumerate(p.ev[:i]) if e[0] == "cond" and any(
-                    A.src(t) in ("%s < 0" % ind, "%s >= 0" % ind) for t, _ in A.literals(e[1], e[2])))
+                last_guard = max(guards)
                 for e in p.ev[last_guard:i]:
-                    if e[0] == "stmt" and any(ind in A.target_names(t) for t in A.assigned_targets(e[1])):
+                    if e[0] in ("stmt", "partial") and any(ind in A.target_names(t) for t in A.assigned_targets(e[1])):
                         ok = False
                     if e[0] == "iter" and ind in A.target_names(e[1].target):
                         ok = False
@@ -201,7 +248,7 @@ def check_convention(ctx):
             sym = {"Lt": "<", "LtE": "<=", "Gt": ">", "GtE": ">=", "Eq": "==", "NotEq": "!="}.get(name, name)
             ctx.check("C06-c", ok, c, "get_bin_on_value_1d compares `%s`, i.e. val %s edge: every other site uses only val < edge, "
                       "val >= edge, val == edge (closed lower, open upper bound); with this comparison a value exactly on an edge goes "
-                      "to the cell below it" % (A.src(c), sym), detail="val %s edge" % sym, construct="compare:%s" % A.src(c))
+                      "to the cell below it" % (A.src(c), sym), detail="val %s edge" % sym, construct="compare:%s" % A.norm_src(c))
     ctx.instances_floor("C06-c", n, 6, "value/edge comparison sites")
     # the operands compared are the caller's own: the coordinate and the edges are not replaced by converted copies
     for par, what in ((val, "coordinate"), (arr, "edges")):
@@ -256,8 +303,37 @@ def check_md_lookup(ctx):
     ctx.check("C06-e", ok, fn, "get_bin_on_value does not append get_bin_on_value_1d(arg[i], edges[i]) once per dimension in order",
               detail="one 1-d lookup per dimension, arg[i] paired with edges[i]", construct="md-lookup")
     raises = [r for r in A.walk_local(fn) if isinstance(r, ast.Raise)]
-    okr = len(raises) == 1 and res.canon(raises[0].exc.func) == "lena.core.exceptions.LenaValueError" and loops and raises[0].lineno < loops[0].lineno \
-        and "len(%s) != len(%s)" % (arg, edges) in A.src(A.enclosing(raises[0], (ast.If,)).test)
+    okr = len(raises) == 1 and isinstance(raises[0].exc, ast.Call) and res.canon(raises[0].exc.func) == "lena.core.exceptions.LenaValueError" \
+        and len(loops) == 1
+    if okr:
+        # polarity- and orientation-independent: the raise is reached under the mismatch, the loop only after it was refuted
+        mism = A.norm_src(ast.parse("len(%s) != len(%s)" % (arg, edges)).body[0].value)
+        match = A.norm_src(ast.parse("len(%s) == len(%s)" % (arg, edges)).body[0].value)
+
+        def decided(path, upto, mismatch):
+            for e in path.ev[:upto]:
+                if e[0] != "cond":
+                    continue
+                for t, pol in A.literals(e[1], e[2]):
+                    # a taken `a or mismatch` is the mismatch as one of the reasons to raise
+                    alts = t.values if (mismatch and pol and isinstance(t, ast.BoolOp) and isinstance(t.op, ast.Or)) else [t]
+                    for a in alts:
+                        a, apol = A.strip_not(a)
+                        apol = apol if pol else not apol
+                        if (A.norm_src(a), apol) in (((mism, True), (match, False)) if mismatch else ((mism, False), (match, True))):
+                            return True
+            return False
+        n_raise = n_loop = 0
+        for p in P.paths_of(fn):
+            i = p.index(raises[0])
+            if i >= 0:
+                n_raise += 1
+                okr = okr and decided(p, i, True) and not any(e[0] == "iter" and e[1] is loops[0] for e in p.ev[:i])
+            its = [k for k, e in enumerate(p.ev) if e[0] == "iter" and e[1] is loops[0]]
+            if its:
+                n_loop += 1
+                okr = okr and decided(p, its[0], False)
+        okr = okr and n_raise >= 1 and n_loop >= 1
     ctx.check("C06-e", okr, fn, "get_bin_on_value does not raise LenaValueError for a length mismatch before any lookup",
               detail="length mismatch rejected first", construct="md-length")
 
@@ -288,8 +364,9 @@ def check_progress(ctx):
             if e[0] != "stmt":
                 continue
             st = e[1]
-            if isinstance(st, ast.AugAssign) and isinstance(st.target, ast.Name) and st.target.id in bounds:
-                strict = isinstance(st.op, (ast.Add, ast.Sub)) and (A.int_const(st.value) or 0) >= 1
+            aa = A.as_augassign(st)     # `b += 1` and `b = b + 1` alike
+            if aa is not None and isinstance(aa[0], ast.Name) and aa[0].id in bounds:
+                strict = isinstance(aa[1], (ast.Add, ast.Sub)) and (A.int_const(aa[2]) or 0) >= 1
                 steps.append((st, strict, "by a constant step"))
             elif isinstance(st, ast.Assign) and len(st.targets) == 1 and isinstance(st.targets[0], ast.Name) and st.targets[0].id in bounds:
                 b = st.targets[0].id
@@ -310,7 +387,7 @@ def check_progress(ctx):
                   "same bounds the next iteration repeats this one, so histogram.fill never returns (the interpolated guess can equal a "
                   "bound through floating-point rounding)" % (p.describe(4), "; ".join("`%s` %s" % (A.src(st), why) for st, _, why in steps) or "no bound changes"),
                   detail="search loop [%s]: a bound moves strictly" % p.describe(3), construct="no-progress:" + ";".join(
-                      A.src_with(st, {bounds[0]: "low", bounds[1]: "high"}) for st, _, _ in steps), path=p)
+                      A.norm_src(st, {bounds[0]: "low", bounds[1]: "high"}) for st, _, _ in steps), path=p)
     ctx.instances_floor("C06-f", n, 3, "ways round the search loop of get_bin_on_value_1d")
 
 
